@@ -2,6 +2,7 @@ package openflow13
 
 import (
 	"encoding/binary"
+	"errors"
 	"net"
 
 	"github.com/contiv/libOpenflow/common"
@@ -75,6 +76,11 @@ func (p *PhyPort) MarshalBinary() (data []byte, err error) {
 }
 
 func (p *PhyPort) UnmarshalBinary(data []byte) error {
+	if len(data) < 64 {
+		return errors.New("the []byte is too short to unmarshal a full PhyPort message")
+	}
+	p.HWAddr = make([]byte, ETH_ALEN)
+	p.Name = make([]byte, 16)
 	p.PortNo = binary.BigEndian.Uint32(data)
 	n := 4
 	copy(p.pad, data[n:n+4])
